@@ -94,5 +94,11 @@ func checkSpecs() map[string]CheckSpec {
 		{Func: "HC06_Shapes", Pkg: "encoding/wkt", Domain: B, Covers: []string{"accepted", "rejected"}},
 	}, Explanation: "The real goyacc WKT parser, grammar actions, validators and layout stack executed on every token sequence up to the bound; the character-level lexer on arbitrary short strings.",
 		Outside: []string{"token sequences longer than the bound", "arbitrary byte strings longer than the character-level bound (covered only by composition: lexer step total + parser total on tokens)"}})
+	add(CheckSpec{Property: "C17", Harnesses: []HarnessSpec{
+		{Func: "HC17_Measures", Domain: B, Covers: []string{"end"}},
+		{Func: "HC17_Codecs", Domain: B, Covers: []string{"end"}},
+		{Func: "HC17_Orientation", Domain: X, RoundModel: true, DeltaModel: true, Covers: []string{"end"}},
+	}, Explanation: "Write monitor of the executor over frozen arguments and package-level variables on every path of the listed entry points; a function that writes only to memory it allocated itself is deterministic and race free under concurrent calls (non-interference).",
+		Outside: []string{"interleavings are not explored (replaced by the non-interference argument); sync-using internals of fmt/strconv are trusted", "entry points not listed here are covered by the same monitors inside the harnesses of their own property"}})
 	return m
 }
